@@ -39,6 +39,13 @@ def main():
             out = {"idx": idx, "state": K.digest(K.snapshot(db)), "w": {}, "same_process": [],
                    "hashseed": os.environ.get("PYTHONHASHSEED")}
             fresh = K.copier(db, base_seed, idx, C)
+            try:      # the cluster-wide view CanCluster builds over the matrix (kcd.dump, arxml.load): same lists under every hash seed
+                import canmatrix.cancluster as CC
+                cl = CC.CanCluster({K.BUS: fresh()})
+                out["cluster_view"] = K.digest([[[f.name, list(f.transmitters), list(f.receivers)] for f in cl.frames],
+                                                [[s.name, list(s.receivers)] for s in cl.signals], [e.name for e in cl.ecus]])
+            except Exception as e:
+                out["cluster_view"] = "REJ " + type(e).__name__
             for w in K.WRITER_KEYS:
                 r1 = K.try_export(F, fresh(), w, tmp)
                 r2 = K.try_export(F, fresh(), w, tmp)
